@@ -161,18 +161,25 @@ func (e *Engine) SolveAll(workers int) {
 			continue
 		}
 		o.Status = "proved"
-		for _, q := range o.Queries {
-			if o.Vacuous {
-				if q.Result == "unsat" {
-					o.Status = "error"
-					o.Note = "vacuity: the assumptions on this path are contradictory"
+		if o.Vacuous {
+			// vacuous only if every path reaching this point is contradictory
+			allUnsat := len(o.Queries) > 0
+			for _, q := range o.Queries {
+				if q.Result != "unsat" {
+					allUnsat = false
 				}
 				if q.Result == "error" {
 					o.Status = "error"
 					o.Note = "solver error: " + firstLine(q.Out)
 				}
-				continue
 			}
+			if allUnsat {
+				o.Status = "error"
+				o.Note = "vacuity: the assumptions at this point are contradictory on every path"
+			}
+			continue
+		}
+		for _, q := range o.Queries {
 			switch q.Result {
 			case "unsat":
 			case "error":
